@@ -10,7 +10,7 @@ import I2N.Model.Rules
     decide;<cfg>;<worker>;<results>;<finished>;<scan>;<disabled> -> <run> <disabled'> | error:<kind>
     verdict;name:uid:STATUS|…                                    -> true | false | error:keyError
     m-new;name:pfx:preName:prePfx|…   m-start;i   m-finish;j;<outcome>   m-replay;i;<results>
-    m-pre;i;<outcome>   suite;<job>;<task results ,>   m-dump   m-verdict   m-issued
+    m-create;i;<outcome>   m-preold;i;<outcome>   suite;<job>;<task results ,>   m-dump   m-verdict   m-issued
     outcome := STATUS:time:delay | never
     splitws;<s>  splitcomma;<s>  int;<s>  substr;<a>;<b>  lower;<s>   (helper cross-checks) -/
 open I2N.Rules
@@ -80,7 +80,9 @@ def showFound : Option JobRes → String
 def showObs : Obs → String
   | .started e => "started " ++ e.name ++ " " ++ e.uid
   | .finished e _ f st => "finished " ++ e.name ++ " " ++ e.uid ++ " " ++ st ++ " " ++ showFound f
-  | .preRun n u _ f st => "pre " ++ n ++ " " ++ u ++ " " ++ st ++ " " ++ showFound f
+  | .created p _ f st m =>
+    "pre " ++ p.name ++ " " ++ p.uid ++ " " ++ st ++ " " ++ showFound f ++ " " ++
+      (match m with | some e => "started:" ++ e.name ++ ":" ++ e.uid | none => "-")
   | .replayed n => "replayed " ++ toString n
   | .noop => "noop"
   | .failed e => errS e
@@ -130,9 +132,13 @@ def stepLine (s : St) (line : String) : St × String :=
     match i.toNat? with
     | some i => let (s', ob) := step s (.replay i (parseResults rs)); (s', showObs ob)
     | none => (s, "bad-op")
-  | ["m-pre", i, o] =>
+  | ["m-create", i, o] =>
     match i.toNat? with
-    | some i => let (s', ob) := step s (.pre i (parseOutcome o)); (s', showObs ob)
+    | some i => let (s', ob) := step s (.create i (parseOutcome o)); (s', showObs ob)
+    | none => (s, "bad-op")
+  | ["m-preold", i, o] =>
+    match i.toNat? with
+    | some i => let (s', ob) := preStepOld s i (parseOutcome o); (s', showObs ob)
     | none => (s, "bad-op")
   | ["m-dump"] => (s, dump s)
   | ["m-verdict"] => (s, showExceptBool (allResultsOk s.job))
